@@ -82,6 +82,13 @@ def parseCalls : Nat → List String → Option (List (String × Float × Float)
 
 def step (t : List String) : String :=
   match t with
+  | "difflim" :: rest =>
+      -- difflim fno wavelength f1 f2 ... : diffraction_limited_mtf at each frequency
+      match parseFloats rest with
+      | some d =>
+          if d.size < 2 then "bad-op" else
+          fmtList fmtFloat ((d.toList.drop 2).map fun f => difflimMtf Float.acos Float.sqrt Float.abs piF f d[1]! d[0]!)
+      | none => "bad-op"
   | "conv" :: ms :: ns :: rest =>
       match ms.toNat?, ns.toNat?, parseFloats rest with
       | some m, some n, some d =>
